@@ -145,4 +145,89 @@ def mclkLookup (avtp : Nat) : Nat → List Nat → Nat → Option Nat × List Na
     let r := mclkNext q prev
     if r.1 % 2 ^ 32 = avtp then (some r.1, r.2, r.1) else mclkLookup avtp fuel r.2 r.1
 
+/-! ### CRF listener, AAF-listener mode: `aaf_listener_recv_pdu` with `handle_crf_pdu`,
+    `handle_aaf_pdu`, `recover_mclk`, `get_next_mclk_timestamp`, `mclk_lookup`, `is_ts_aligned`.
+    The buffer is 68 octets, zeroed before every `recv`. -/
+
+structure CrfState where
+  queue : List Nat := []
+  prev : Nat := 0
+  needLookup : Bool := true
+  prevAligned : Bool := false
+  deriving Repr, DecidableEq
+
+def CRF_BUF : Nat := 68
+def CRF_STREAM_ID : Nat := 0xAABBCCDDEEFF0002
+
+def crfPduValid (m : Mem) : Bool :=
+  getNamed Spec.commonHeader m 0 "VERSION" = 0 && getNamed Spec.crf m 0 "SV" = 1 &&
+  getNamed Spec.crf m 0 "FS" = 0 && getNamed Spec.crf m 0 "TYPE" = 1 &&
+  getNamed Spec.crf m 0 "STREAM_ID" = CRF_STREAM_ID && getNamed Spec.crf m 0 "PULL" = 0 &&
+  getNamed Spec.crf m 0 "BASE_FREQUENCY" = 48000 && getNamed Spec.crf m 0 "CRF_DATA_LENGTH" = 48
+
+def crfAafValid (m : Mem) : Bool :=
+  getNamed Spec.commonHeader m 0 "VERSION" = 0 && getNamed Spec.pcm m 0 "TV" = 1 &&
+  getNamed Spec.pcm m 0 "SP" = 0 && getNamed Spec.pcm m 0 "STREAM_ID" = STREAM_ID_L &&
+  getNamed Spec.pcm m 0 "FORMAT" = 4 && getNamed Spec.pcm m 0 "NSR" = 5 &&
+  getNamed Spec.pcm m 0 "CHANNELS_PER_FRAME" = 2 && getNamed Spec.pcm m 0 "BIT_DEPTH" = 16 &&
+  getNamed Spec.pcm m 0 "STREAM_DATA_LENGTH" = 24
+
+/-- `recover_mclk` (listener mode: no transit-time offset) -/
+def recoverMclk (tsCrf prev : Nat) : List Nat :=
+  (List.range 160).filterMap (fun idx =>
+    let ts := (tsCrf + idx * MCLK_PERIOD) % 2 ^ 64
+    if ts ≤ prev then none else some ts)
+
+/-- `get_next_mclk_timestamp` on the listener state -/
+def CrfState.next (st : CrfState) : Nat × CrfState :=
+  match st.queue with
+  | [] => let t := (st.prev + MCLK_PERIOD) % 2 ^ 64; (t, { st with prev := t, needLookup := true })
+  | t :: rest => (t, { st with queue := rest, prev := t })
+
+/-- `mclk_lookup` -/
+def CrfState.lookup (avtp : Nat) : Nat → CrfState → Option Nat × CrfState
+  | 0, st => (none, st)
+  | fuel + 1, st =>
+    let r := st.next
+    if r.1 % 2 ^ 32 = avtp then (some r.1, r.2) else CrfState.lookup avtp fuel r.2
+
+/-- `is_ts_aligned` (n = 0): `(int)(avtp − mclk)` within ±(int)(20833.3/4) -/
+def tsAligned (mclk avtp : Nat) : Bool :=
+  let d := (avtp + 2 ^ 32 - mclk) % 2 ^ 32
+  d ≤ 5208 || 2 ^ 32 - 5208 ≤ d
+
+/-- the media-clock timestamp `handle_aaf_pdu` pairs with the packet: by search when one is
+    pending (`none`: budget exhausted, the timestamps tried stay consumed), else the next one -/
+def crfAdvance (st : CrfState) (avtp : Nat) : Option Nat × CrfState :=
+  if st.needLookup then
+    let r := CrfState.lookup avtp MCLK_LOOKUP_MAX st
+    (r.1, if r.1.isSome then { r.2 with needLookup := false } else r.2)
+  else
+    let r := st.next
+    (some r.1, r.2)
+
+/-- the line printed when the alignment state changes -/
+def alignMsg (a : Bool) : List Byte :=
+  strBytes (if a then "AAF Stream is aligned with common media clock\n"
+            else "AAF Stream is not aligned with common media clock\n")
+
+def crfListenerStep (st : CrfState) (pkt : List Byte) : CrfState × List Byte :=
+  let r := recvInto CRF_BUF 0 pkt
+  let m := r.1
+  if r.2 ≠ 48 ∧ r.2 ≠ 68 then (st, []) else
+  let subtype := getNamed Spec.commonHeader m 0 "SUBTYPE"
+  if subtype = 0x4 then
+    if crfPduValid m then ({ st with queue := st.queue ++ recoverMclk (beN m 20 8) st.prev }, []) else (st, [])
+  else if subtype = 0x2 then
+    if !crfAafValid m then (st, []) else
+    let avtp := getNamed Spec.pcm m 0 "AVTP_TIMESTAMP"
+    let adv := crfAdvance st avtp
+    match adv.1 with
+    | none => (adv.2, [])
+    | some t =>
+      let a := tsAligned (t % 2 ^ 32) avtp
+      let out := if adv.2.prevAligned ≠ a then alignMsg a else []
+      ({ adv.2 with prevAligned := a }, out)
+  else (st, [])
+
 end O1722
